@@ -6,6 +6,7 @@ package limitl
 import (
 	"fmt"
 	"math/bits"
+	"runtime"
 	"testing"
 	"time"
 
@@ -29,6 +30,9 @@ type Script struct {
 	// Elem: element type the generic discipline is instantiated with: "" = int, "empty" = struct{}
 	// (zero size: order cannot be observed, only count, timing and closure), "wide" = a 264-byte struct, "iface" = interface values, every third of them nil
 	Elem string `json:"element_type,omitempty"`
+	// DropHandle: the consumer keeps only the channel returned by Output(), drops the discipline
+	// value and forces garbage collections during the run
+	DropHandle bool `json:"consumer_keeps_only_the_output_channel,omitempty"`
 }
 
 // Trace is what was observed.
@@ -165,11 +169,25 @@ func executeT[T any](t *testing.T, s Script, leakScan bool, budget time.Duration
 		if !s.PreStart {
 			go produce()
 		}
+		var kept <-chan T
+		if s.DropHandle {
+			// the consumer keeps the channel only; the discipline value itself becomes garbage and
+			// collections run while elements are still on their way
+			kept = dsc.Output()
+			dsc = nil
+		}
 		for k := 0; ; k++ {
 			if len(s.Cons) > 0 {
 				time.Sleep(time.Duration(s.Cons[k%len(s.Cons)]))
 			}
-			v, ok := <-dsc.Output()
+			out := kept
+			if out == nil {
+				out = dsc.Output()
+			} else if k == 1 || k == 3 {
+				runtime.GC()
+				runtime.GC()
+			}
+			v, ok := <-out
 			if !ok {
 				tr.ClosedAt = now()
 				break
@@ -432,6 +450,7 @@ func Gen(thorough bool) *rapid.Generator[Script] {
 			}
 		}
 		s.PreStart = rapid.IntRange(0, 2).Draw(t, "prestart") == 0
+		s.DropHandle = rapid.IntRange(0, 63).Draw(t, "drophandle") == 1 // a forced collection costs real time
 		s.Elem = rapid.SampledFrom([]string{"", "", "", "", "empty", "wide", "iface"}).Draw(t, "elem")
 		if s.Q <= 1000 && rapid.IntRange(0, 7).Draw(t, "steady") == 0 {
 			// everything up-front, several batches, a consumer that needs a fixed time per element
